@@ -61,6 +61,7 @@ class C14(Check):
         "(c) every 1-2 row scaffold of the C03 scope with strands +/- x widths x buffers x line lengths: stream(reverse) == revcomp(stream); "
         "(d) every lookup of the C18 scaffold x bait scope: to_scaffold with minus bait == reverse of plus. "
         "non-trivial = case with at least one fragment row (b,c,d) or an IUPAC letter (a)"
+        " Byte strings of length 2^k-1, 2^k, 2^k+1 (k=8..18), 3*2^16, 250000; the original is streamed again after it was reversed; a row pair with equal interval and different tags."
     )
     assumptions = [
         "clause (c) is evaluated for rows of known strand only: a strand-0 row is streamed forward and its reversal is still strand 0, "
